@@ -51,10 +51,13 @@ func sleep(fm *Frame, duration any) error {
 		return ErrNegativeSleepDuration
 	}
 
+	VerifTrace(fm, "sleep.begin", fm.background)
 	select {
 	case <-fm.Context().Done():
+		VerifTrace(fm, "sleep.int", fm.background)
 		return ErrInterrupted
 	case <-timeAfter(fm, d):
+		VerifTrace(fm, "sleep.ok", fm.background)
 		return nil
 	}
 }
